@@ -1165,9 +1165,97 @@ def merge_append_arms(stmts: list[ast.stmt]) -> list[ast.stmt]:
     return block(stmts)
 
 
+def recompute_carried_locals(stmts: list[ast.stmt]) -> list[ast.stmt]:
+    """v = E(x)                                          while (v := E(x)) ..T..:
+       while ..T(v)..:                                       BODY
+           BODY                                   ->         x = X'
+           x, v = X', E(X')
+    a local carried round the loop that is, at every test, E of another loop variable is E computed at the test.  Asked for: v is bound
+    only before the loop and by the last statement of the body (together with x, to E with x := X'); the body only computes
+    (no calls but isinstance / len, no stores through anything), so E(x) read at the test is E(x) read a statement earlier."""
+    def quiet(b):
+        for s_ in b:
+            for n in ast.walk(s_):
+                if isinstance(n, ast.Call) and not (isinstance(n.func, ast.Name) and n.func.id in ("isinstance", "len", "issubclass")):
+                    return False
+                if isinstance(n, (ast.Attribute, ast.Subscript)) and isinstance(n.ctx, (ast.Store, ast.Del)):
+                    return False
+                if isinstance(n, (ast.AugAssign, ast.Delete, ast.With, ast.Try, ast.For, ast.While, ast.Yield, ast.YieldFrom, ast.Await, ast.NamedExpr)):
+                    return False
+        return True
+
+    def block(b):
+        b = list(b)
+        for s_ in b:
+            if isinstance(s_, (ast.FunctionDef, ast.AsyncFunctionDef, ast.ClassDef)):
+                continue
+            for fld in ("body", "orelse", "finalbody"):
+                bb = getattr(s_, fld, None)
+                if isinstance(bb, list) and bb and isinstance(bb[0], ast.stmt):
+                    setattr(s_, fld, block(bb))
+        out = []
+        for i, s_ in enumerate(b):
+            prev = out[-1] if out else None
+            if isinstance(s_, ast.While) and not s_.orelse and isinstance(prev, ast.Assign) and len(prev.targets) == 1 and isinstance(prev.targets[0], ast.Name) \
+                    and s_.body and is_pure(prev.value) and is_pure(s_.test):
+                v, E = prev.targets[0].id, prev.value
+                # the one place where the body goes round: the end of the body, or of the arm of a trailing if / elif chain whose other arms leave
+                leaf = s_.body
+
+                def leaves_(blk):
+                    if not blk:
+                        return False
+                    z = blk[-1]
+                    if isinstance(z, (ast.Return, ast.Raise, ast.Break)):
+                        return True
+                    return isinstance(z, ast.If) and bool(z.orelse) and leaves_(z.body) and leaves_(z.orelse)
+                while leaf and isinstance(leaf[-1], ast.If) and leaf[-1].orelse and (leaves_(leaf[-1].body) != leaves_(leaf[-1].orelse)):
+                    leaf = leaf[-1].orelse if leaves_(leaf[-1].body) else leaf[-1].body
+                last = leaf[-1] if leaf else None
+                rest_quiet = last is not None and quiet([x for x in ast.walk(ast.Module(body=list(s_.body), type_ignores=[])) if isinstance(x, ast.stmt) and x is not last
+                                                          and not isinstance(x, ast.If)] + [ast.Expr(value=x.test) for x in ast.walk(ast.Module(body=list(s_.body), type_ignores=[])) if isinstance(x, ast.If)])
+                if not rest_quiet:
+                    out.append(s_)
+                    continue
+                xs = [n.id for n in ast.walk(E) if isinstance(n, ast.Name)]
+                if isinstance(last, ast.Assign) and len(last.targets) == 1 and isinstance(last.targets[0], ast.Tuple) and isinstance(last.value, ast.Tuple) \
+                        and len(last.targets[0].elts) == 2 == len(last.value.elts) and all(isinstance(t, ast.Name) for t in last.targets[0].elts):
+                    (t1, t2), (v1, v2) = last.targets[0].elts, last.value.elts
+                    if t2.id != v and t1.id == v:
+                        (t1, t2), (v1, v2) = (t2, t1), (v2, v1)
+                    x = t1.id
+                    # (temporaries of the round, bound once to something that only computes, are what they were bound to)
+                    tmp = {}
+                    for n in ast.walk(ast.Module(body=list(s_.body), type_ignores=[])):
+                        if isinstance(n, ast.Assign) and n is not last and len(n.targets) == 1 and isinstance(n.targets[0], ast.Name) and is_pure(n.value):
+                            nm = n.targets[0].id
+                            if sum(1 for k in ast.walk(s_) if isinstance(k, ast.Name) and isinstance(k.ctx, ast.Store) and k.id == nm) == 1:
+                                tmp[nm] = n.value
+                    v2 = _Subst(dict(tmp)).visit(copy.deepcopy(v2))
+                    if t2.id == v and x != v and xs.count(x) >= 1 and quiet([ast.Expr(value=v1), ast.Expr(value=v2)]) \
+                            and sum(1 for n in ast.walk(s_) if isinstance(n, ast.Name) and isinstance(n.ctx, ast.Store) and n.id == v) == 1 \
+                            and sum(1 for n in ast.walk(s_) if isinstance(n, ast.Name) and isinstance(n.ctx, ast.Store) and n.id == x) == 1 \
+                            and not any(isinstance(n, ast.Continue) for n in ast.walk(s_)) \
+                            and ast.dump(_Subst({x: v1}).visit(copy.deepcopy(E))) == ast.dump(v2) \
+                            and any(isinstance(n, ast.Name) and n.id == v for n in ast.walk(s_.test)):
+                        # reads of v after the loop see E(x) as of the failed test: keep a binding there
+                        new_test = _Subst({v: ast.NamedExpr(target=ast.Name(id=v, ctx=ast.Store()), value=copy.deepcopy(E))}).visit(copy.deepcopy(s_.test)) \
+                            if sum(1 for n in ast.walk(s_.test) if isinstance(n, ast.Name) and n.id == v) == 1 else None
+                        if new_test is not None:
+                            out.pop()
+                            leaf[-1] = ast.copy_location(ast.Assign(targets=[ast.Name(id=x, ctx=ast.Store())], value=v1), last)
+                            out.append(ast.fix_missing_locations(ast.copy_location(ast.While(test=new_test, body=s_.body, orelse=[]), s_)))
+                            continue
+            out.append(s_)
+        return out
+    if not any(isinstance(n, ast.While) for s_ in stmts for n in ast.walk(s_)):
+        return stmts
+    return block(stmts)
+
+
 def normalise_loops(stmts: list[ast.stmt]) -> list[ast.stmt]:
     stmts = [copy.deepcopy(s) for s in stmts]
-    stmts = merge_append_arms(split_accumulator_loops(stmts))
+    stmts = recompute_carried_locals(merge_append_arms(split_accumulator_loops(stmts)))
     total = _loads(stmts)
 
     def rec(block):
